@@ -88,44 +88,95 @@ func parseF(ss []string) []complex128 {
 
 var chebUnit = basisCase{"chebyshev[-1,1]", 1, -1, 1}
 
-// compEval: p_k(...p_0(x)) with the last polynomial optionally replaced by (p+1)/2 (Step).
-func compEval(cp composite, x float64, step bool) float64 {
-	y := complex(x, 0)
-	for i, p := range cp.polys {
-		cs := parseF(p)
-		y = refEval(chebUnit, cs, y)
-		if step && i == len(cp.polys)-1 {
-			y = (y + 1) / 2
+// chebDeriv returns p'(y) for p = sum c_k T_k (real coefficients, real y): T_k' = k U_{k-1}.
+func chebDeriv(cs []complex128, y float64) float64 {
+	// U_0 = 1, U_1 = 2y, U_k = 2y U_{k-1} - U_{k-2}
+	uPrev, uCur := 1.0, 2*y
+	d := 0.0
+	for k := 1; k < len(cs); k++ {
+		var u float64 // U_{k-1}
+		switch k {
+		case 1:
+			u = uPrev
+		case 2:
+			u = uCur
+		default:
+			uPrev, uCur = uCur, 2*y*uCur-uPrev
+			u = uCur
 		}
+		d += real(cs[k]) * float64(k) * u
 	}
-	return real(y)
+	return d
 }
 
-// compModel: error of the homomorphic evaluation of the composite (no safety factor) for an input error e0.
+// chebF evaluates sum c_k T_k(t) in float64 (Clenshaw); used only inside error bounds.
+func chebF(cs []float64, t float64) float64 {
+	var b1, b2 float64
+	for k := len(cs) - 1; k >= 1; k-- {
+		b1, b2 = 2*t*b1-b2+cs[k], b1
+	}
+	return t*b1 - b2 + cs[0]
+}
+
+// supDev bounds sup over |t-y| <= e of |p(t)-p(y)|: maximum over a grid of spacing h plus the piecewise-linear
+// interpolation remainder M2 h^2/8 (M2 >= max |p”| on [-1,1]: sum |c_k| k^2(k^2-1)/3), plus float slack.
+func supDev(cs []float64, M2, y, e float64) float64 {
+	if e == 0 {
+		return 0
+	}
+	n := int(2*e*math.Sqrt(M2/8e-10)) + 16
+	if n > 40000 {
+		n = 40000
+	}
+	h := 2 * e / float64(n)
+	py := chebF(cs, y)
+	sup := 0.0
+	for j := 0; j <= n; j++ {
+		sup = math.Max(sup, math.Abs(chebF(cs, y-e+float64(j)*h)-py))
+	}
+	return sup + M2*h*h/8 + 1e-13
+}
+
+// compTrack evaluates the composite p_k(...p_0(x)) in plaintext (last polynomial replaced by (p+1)/2 for Step)
+// and, alongside, a bound on the error of its homomorphic evaluation for an input error e0 (no safety factor):
 //
-//	stage i:  e_i = L_i * e_{i-1}                      (|p(x+e)-p(x)| <= max|p'| * e, with max|p'| <= sum |c_k| k^2 on [-1,1], +1% for |x| slightly above 1)
-//	              + polyModel(deg_i, S_i, rho=0)       (noise added by the evaluation itself)
-//	              + conj + boot                        (key-switch of the conjugation; one possible re-encryption)
-func compModel(w *compWorld, cp composite, e0 float64, step bool) float64 {
+//	stage i:  e_i = sup over |t-y| <= e_{i-1} of |p_i(t)-p_i(y)| * 1.01   effect of the incoming error at the point y actually
+//	                                                                    reached (supDev; the minimax sign polynomials amplify by
+//	                                                                    10..400 in places and flatten near +-1: a global
+//	                                                                    Lipschitz constant would be useless)
+//	              + polyModel(deg_i, S_i, rho=0)                        noise added by the evaluation itself
+//	              + conj + boot                                         key-switch of the conjugation; one possible re-encryption
+//
+// ok=false: the interval [y-e, y+e] leaves [-1-1e-6, 1+1e-6], where the bounds do not hold (slot not judged).
+func compTrack(w *compWorld, cp composite, x, e0 float64, step bool) (y, e float64, ok bool) {
 	p := w.Params.Parameters
 	z := circ.NoiseOf(p)
 	delta := circ.ScaleF(w.Params.DefaultScale())
 	boot := z.Embed * z.Fresh() / delta
 	conj := z.Embed * circ.KeySwitch(p, p.MaxLevel(), p.MaxLevelP()) / (delta / 4)
-	e := e0
+	y, e, ok = x, e0, true
 	for i, ps := range cp.polys {
 		cs := parseF(ps)
-		L, S := 0.0, 0.0
+		last := step && i == len(cp.polys)-1
+		if math.Abs(y)+e > 1+1e-6 {
+			return y, e, false
+		}
+		fs := make([]float64, len(cs))
+		M2, S := 0.0, 0.0
 		for k, ck := range cs {
-			L += cmplx.Abs(ck) * float64(k*k)
+			fs[k] = real(ck)
+			kk := float64(k * k)
+			M2 += cmplx.Abs(ck) * kk * (kk - 1) / 3
 			S += cmplx.Abs(ck)
 		}
-		if step && i == len(cp.polys)-1 {
-			L, S = L/2, S/2+0.5
+		dev := supDev(fs, M2*1.001, y, e)
+		y = real(refEval(chebUnit, cs, complex(y, 0)))
+		if last {
+			y, dev, S = (y+1)/2, dev/2, S/2+0.5
 		}
-		e = 1.01*L*e + polyModel(p, true, len(cs)-1, S, 0, delta) + conj + boot
+		e = 1.01*dev + polyModel(p, true, len(cs)-1, S, 0, delta) + conj + boot
 	}
-	return e
+	return y, e, true
 }
 
 const (
@@ -140,6 +191,7 @@ const (
 var opNames = []string{"minimax.Evaluate", "comparison.Sign", "comparison.Step", "comparison.Max", "comparison.Min"}
 
 var compSpec6 = circ.CKKSSpec{LogN: 6, NQ: 11, Q0Bits: 55, QBits: 45, NP: 2, PBits: 56, LogScale: 45}
+var compSpecHP = circ.CKKSSpec{LogN: 4, NQ: 11, Q0Bits: 60, QBits: 55, NP: 2, PBits: 61, LogScale: 55}
 var compSpec7 = circ.CKKSSpec{LogN: 7, NQ: 11, Q0Bits: 55, QBits: 45, NP: 2, PBits: 56, LogScale: 45}
 var compSpec8CI = circ.CKKSSpec{LogN: 8, NQ: 11, Q0Bits: 55, QBits: 45, NP: 2, PBits: 56, LogScale: 45, CI: true}
 
@@ -158,6 +210,15 @@ func compositeScenarios(tier string) []engine.Scenario {
 		}
 		name := fmt.Sprintf("composite/%s/Goldschmidt", spec.String())
 		scs = append(scs, engine.Scenario{Name: name, Bound: -1, Fn: func(c *engine.Chooser) { goldschmidtLeaf(c, name, spec) }})
+	}
+	// The package's default composite polynomial for the sign (8 minimax polynomials of degree 15..31, then X4) amplifies
+	// perturbations by 10..400 per stage before it flattens: the tracked bound is only meaningful with very little noise,
+	// hence a dedicated world with 8 slots and a 2^55 scale. Slots where the tracked interval still leaves [-1,1] are
+	// counted (composite=slot-outside-model), not judged.
+	{
+		cp := composite{"default-sign", comparison.DefaultCompositePolynomialForSign}
+		name := fmt.Sprintf("composite/%s/%s", compSpecHP.String(), cp.name)
+		scs = append(scs, engine.Scenario{Name: name, Bound: -1, Fn: func(c *engine.Chooser) { compositeLeaf(c, name, compSpecHP, cp) }})
 	}
 	scs = append(scs, engine.Scenario{Name: "composite/doc-examples", Bound: -1, Fn: docExamplesLeaf})
 	return scs
@@ -248,17 +309,18 @@ func compositeLeaf(c *engine.Chooser, scName string, spec circ.CKKSSpec, cp comp
 	for j := 0; j < n; j++ {
 		var want, model float64
 		x, y := real(a[j]), real(b[j])
+		ok := true
 		switch op {
 		case opMinimax, opSign:
-			want, model = compEval(cp, x, false), compModel(w, cp, rho, false)
+			want, model, ok = compTrack(w, cp, x, rho, false)
 		case opStep:
-			want, model = compEval(cp, x, true), compModel(w, cp, rho, true)
+			want, model, ok = compTrack(w, cp, x, rho, true)
 		case opMax, opMin:
-			// diff = a-b (error 2 rho, possibly re-encrypted: +rho), step(diff) (staged model), rescaling of diff by a
+			// diff = a-b (error 2 rho, possibly re-encrypted: +rho), step(diff) (tracked), rescaling of diff by a
 			// constant (mu), product step*diff (|diff|<=1, |step|<=1.01) and rescale (mu), +- an input (rho)
 			d := x - y
-			st := compEval(cp, d, true)
-			es := compModel(w, cp, 3*rho, true)
+			var st, es float64
+			st, es, ok = compTrack(w, cp, d, 3*rho, true)
 			ed := 3*rho + mu
 			model = math.Abs(d)*es + 1.01*ed + es*ed + mu + rho
 			if op == opMax {
@@ -267,7 +329,17 @@ func compositeLeaf(c *engine.Chooser, scName string, spec circ.CKKSSpec, cp comp
 				want = x - st*d
 			}
 		}
+		if !ok {
+			c.Cover("composite", "slot-outside-model")
+			continue
+		}
+		if cp.name == "default-sign" {
+			c.Cover("composite", "default-sign-slot-judged")
+		}
 		eps := safety*model + 1e-12
+		if cp.name == "default-sign" && eps < 1e-6 {
+			c.Cover("composite", "default-sign-slot-tight") // the bound is far below the +-1 output there
+		}
 		dlt := cmplx.Abs(got[j] - complex(want, 0))
 		if dlt > worst {
 			worst, worstEps = dlt, eps
